@@ -226,3 +226,8 @@ From VGen Require Import Tables.
 From VProofs Require Import TieC11.
 Theorem c11_tie_adjust_key_size : forall size, adjust_key_size size = src_adjust_key_size size.
 Proof. exact tie_adjust_key_size. Qed.
+
+(* the size-rating block of HostKeyTest.perform_test() as it reads now (T1c translation, gen/Tables.v) is the model's size_notes:
+   the threshold theorems above are therefore about the statements of the current source, for every key type, size, CA type and CA size *)
+Theorem c11_tie_hostkey_notes : forall name cert hs cat cs, size_notes name cert hs cat cs = src_hostkey_notes name cert hs cat cs.
+Proof. exact tie_hostkey_notes. Qed.
